@@ -187,6 +187,10 @@ class Continuous(AgentSchedulingComponent):
 
         slots = list()
 
+        # resources of this node which are claimed by the slots found so far
+        lfs_used = 0
+        mem_used = 0
+
         # find at most `n_slots`
         loop_core_idx = 0
         loop_gpu_idx  = 0
@@ -194,6 +198,12 @@ class Continuous(AgentSchedulingComponent):
 
             node_idx  = node['index']
             node_name = node['name']
+
+            # node-local storage and memory are finite, too
+            if lfs_per_slot > node['lfs'] - lfs_used or \
+               mem_per_slot > node['mem'] - mem_used:
+                self._log.debug_9('not enough lfs/mem on %s', node_name)
+                break
 
             self._log.debug_9('find resources on %s:%d', node_name, node_idx)
             self._log.debug_9('node: %s', pprint.pformat(node))
@@ -265,6 +275,8 @@ class Continuous(AgentSchedulingComponent):
 
             self._log.debug_9('found resources on %s: %s', node_name, slot)
 
+            lfs_used += lfs_per_slot
+            mem_used += mem_per_slot
             slots.append(slot)
 
         self._log.debug_9('found resources on %s', node_name)
